@@ -57,6 +57,9 @@ def _data(case):
     w = None if case["w"] is None else np.array(case["w"][:n], dtype=np.float64)
     # targets in other units: y * s with delta * s is the same problem (the IRLS floor `delta` is an absolute residual size)
     y = y * float(case.get("yscale", 1.0))
+    if case.get("ydtype") == "int64":
+        # integer-typed targets (counts, prices in cents): the same problem on the rounded values
+        y = np.round(y).astype(np.int64)
     return X, y, w
 
 
@@ -88,7 +91,7 @@ def check_fit(case):
     # the LP is solved in the units of the generator (HiGHS works with absolute feasibility tolerances of 1e-7, which are not small
     # next to targets of 1e-5); the pinball loss is positively homogeneous, so the optimum scales with the unit
     ys = float(case.get("yscale", 1.0))
-    Ls = ys * lp_optimum(X, y / ys, q, np.ones(n) if w is None else w, case["fit_intercept"], case["positive"])
+    Ls = ys * lp_optimum(X, np.asarray(y, dtype=np.float64) / ys, q, np.ones(n) if w is None else w, case["fit_intercept"], case["positive"])
     # absolute slack: the IRLS weights are capped at 1/delta, residuals cannot be resolved below delta (default 1e-4) per row
     scale = 1e-9 * (_delta(case) * 1e4 + float(np.abs(y).sum())) + n * _delta(case)
     eps = EPS[case["max_iter"]]
@@ -117,6 +120,7 @@ def check_fit(case):
     nt = not (0.45 <= q <= 0.55) or w is not None or case["positive"] or not case["fit_intercept"]
     labels.append("numpy-scalar-params" if case.get("np_params") else "python-scalar-params")
     labels.append("yscale=%g" % case.get("yscale", 1.0))
+    labels.append("targets:" + case.get("ydtype", "float64"))
     return Outcome(labels, nt)
 
 
@@ -212,6 +216,8 @@ def _cases(draw, tier="quick", weighted=None, for_score=False):
                 max_iter=draw(st.sampled_from([10, 50, 300])),
                 w=[draw(st.integers(1, 4)) for _ in range(60)] if has_w else None, np_params=draw(st.sampled_from([False, False, True])),
                 yscale=draw(st.sampled_from([1.0, 1.0, 1.0, 1e-5, 1e-3, 1e3])))
+    if draw(st.integers(0, 4)) == 0:
+        case["yscale"], case["ydtype"] = 1e3, "int64"
     if not for_score and not weighted and draw(st.integers(0, 3)) == 0:
         case["outliers"] = [[draw(st.integers(0, 59)), draw(st.sampled_from([1e6, -1e6, 1e4]))] for _ in range(draw(st.integers(1, 3)))]
     if for_score:
